@@ -114,3 +114,29 @@ fn q3_put_counts_direct() {
     }
     std::mem::forget(q); std::mem::forget(s);
 }
+
+#[kani::proof]
+#[kani::stub(std::time::Instant::now, clock::now)]
+#[kani::stub(crate::actor::socket::KrpcSocket::send, send_stub)]
+#[kani::stub(std::net::UdpSocket::set_read_timeout, srt_stub)]
+#[kani::stub(crate::common::id::Id::random, id_stub)]
+#[kani::unwind(5)]
+fn q4_start_contract() {
+    let mut s = fake_socket(false);
+    clock::set(0);
+    let req = PutRequestSpecific::AnnouncePeer(AnnouncePeerRequestArguments { info_hash: Id::from([1u8; 20]), port: 1, implied_port: None });
+    let mut q = PutQuery::new(req, None);
+    let t0: bool = kani::any();
+    let t1: bool = kani::any();
+    let a0 = SocketAddrV4::new([10, 0, 0, 1].into(), 1);
+    let a1 = SocketAddrV4::new([10, 0, 0, 2].into(), 1);
+    let n0 = if t0 { Node::new_with_token(Id::from([2u8; 20]), a0, Box::new([1, 2, 3, 4])) } else { Node::new(Id::from([2u8; 20]), a0) };
+    let n1 = if t1 { Node::new_with_token(Id::from([3u8; 20]), a1, Box::new([5, 6, 7, 8])) } else { Node::new(Id::from([3u8; 20]), a1) };
+    let nodes = [n0, n1];
+    let r = q.start(&mut s, &nodes);
+    assert!(r.is_ok());
+    assert!(q.inflight_requests.len() == (t0 as usize) + (t1 as usize));
+    // the no-hang contract: Ok(()) implies something is in flight
+    assert!(q.started());
+    std::mem::forget(q); std::mem::forget(s); std::mem::forget(nodes);
+}
